@@ -62,6 +62,8 @@ def handleC11 (c : Case) : Verdict :=
       .differ "state" s!"applyAll r0 trace has packs {rk.packs.map (·.1)} indexes {rk.indexes.map (·.1)} snaps {rk.snaps.map (·.1)}; backend has packs {s1.packs.map (·.1)} indexes {s1.indexes.map (·.1)} snaps {s1.snaps.map (·.1)}"
     else if !accept_backup r0 tr then
       .differ "trace-not-in-language" s!"accept_backup rejects a trace of {tr.length} events (acceptAdds={acceptAdds r0 tr} snapOnlyLast={snapOnlyLast tr})"
+    else if !freshOK r0 tr then
+      .differ "file-name-reused" "a save hit a name that already existed"
     else if complete && !endsWithSnap tr then
       .differ "complete-run-without-snapshot" ""
     else if endsWithSnap tr && !(unindexedPacks tr).isEmpty then
